@@ -6,6 +6,7 @@ import (
 	"fmt"
 	"reflect"
 	"sort"
+	"strings"
 
 	"verif/internal/onto"
 	"verif/internal/prng"
@@ -173,6 +174,23 @@ func genPage(g *prng.R, box string) M {
 		var id string
 		if len(items) > 0 && g.Chance(1, 4) {
 			id, _ = idOfValue(items[g.Intn(len(items))]) // duplicate of an earlier id
+		} else if len(items) > 0 && g.Chance(1, 8) {
+			// a near-duplicate: another id, not to be removed
+			base, _ := idOfValue(items[g.Intn(len(items))])
+			if strings.ContainsAny(base, "#?") || strings.HasSuffix(base, "/") {
+				// keep ids in canonical lexical form: vary plain ids only
+				base = fmt.Sprintf("%s/act/%d", pick(g, R1, R2, L), g.Intn(100000))
+			}
+			switch g.Intn(4) {
+			case 0:
+				id = base + "/"
+			case 1:
+				id = base + "#frag"
+			case 2:
+				id = base + "?v=2"
+			default:
+				id = strings.Replace(base, "/act/", "/ACT/", 1)
+			}
 		} else {
 			id = fmt.Sprintf("%s/act/%d", pick(g, R1, R2, L), g.Intn(100000))
 		}
